@@ -64,6 +64,18 @@ func drainChannel[T any](ch <-chan T) {
 	}
 }
 
+// drainInfiniteChannel discards everything queued in ch. A non-blocking
+// receive loop is not enough for an InfiniteChannel: its pump goroutine offers
+// one buffered item at a time, so the loop can find Out() momentarily empty
+// and return while items are still buffered. Len() includes the item being
+// offered, so a receive after Len() > 0 cannot block as long as the caller
+// is the only consumer.
+func drainInfiniteChannel(ch *channels.InfiniteChannel) {
+	for ch.Len() > 0 {
+		<-ch.Out()
+	}
+}
+
 func cleanInfiniteChannel(ch *channels.InfiniteChannel) {
 	ch.Close()
 	// drain all remaining items. The pump goroutine of the InfiniteChannel
